@@ -22,9 +22,8 @@ TableOK(tbl, o) == /\ o.cols = ColsOf(tbl) /\ Len(o.rows) = Len(tbl.rows)
 EnvWhy(x, o) == IF o.strays # <<>> THEN "a variable other than RUN2D / RUN1D was changed"
                 ELSE IF \E v \in EnvVars : o.env[v] \notin x.envs[v] THEN "RUN2D / RUN1D afterwards"
                 ELSE ""
-MetaWhy(c, o) ==
-  LET x == MetaExpect(c.file, c.exists, c.env0)
-      badKeys == {k \in DOMAIN x.meta : ~ValOK(x.meta[k], o.meta[k])}
+MetaWhy(c, o, x) ==
+  LET badKeys == {k \in DOMAIN x.meta : ~ValOK(x.meta[k], o.meta[k])}
   IN IF EnvWhy(x, o) # "" THEN EnvWhy(x, o)
      ELSE IF x.out = "notfound"
      THEN (IF o.how = "raise" /\ o.exc = "Pydlspec2dException" THEN "" ELSE "M1: a missing file must raise Pydlspec2dException")
@@ -35,7 +34,7 @@ MetaWhy(c, o) ==
      ELSE IF badKeys # {} THEN "M4: metadata value of " \o (CHOOSE k \in badKeys : TRUE)
      ELSE IF ~TableOK(c.file.tbl, o) THEN "M6: slist is not the EIGENOBJ table"
      ELSE ""
-MetaAux(c) == [meta |-> MetaExpect(c.file, c.exists, c.env0).meta, first |-> MetaExpect(c.file, c.exists, c.env0).first]
+MetaAux(x) == [meta |-> x.meta, first |-> x.first, open |-> x.out = "open"]
 
 (* ---------------- template_input ---------------- *)
 Strip(cl) == IF cl.name = "preprocess_spectra" THEN [cl EXCEPT !.a.ivar = "num", !.a.zfit = "num"]
@@ -48,9 +47,8 @@ CallEq(a, b) == a.name = b.name /\ a.a = b.a
 FlowEq(a, b) == Len(a) = Len(b) /\ \A k \in DOMAIN a : CallEq(a[k], b[k])
 NothingWritten(o) == o.fits.name = "" /\ o.plotEig = <<>> /\ o.nfigs = 0
 DateOK(o) == o.date.count >= 1 /\ o.date.before
-RunWhy(c, o) ==
-  LET x == RunExpect(c)
-      want == StripFlow(x.flow)
+RunWhy(c, o, x) ==
+  LET want == StripFlow(x.flow)
   IN IF o.strays # <<>> THEN "a variable other than RUN2D / RUN1D was changed"
      ELSE IF x.tail = "any" THEN ""
      ELSE IF Len(o.flow) = 0 \/ ~CallEq(o.flow[1], CMeta) THEN "T1: template_metadata(inputfile) is not the first call"
@@ -86,20 +84,19 @@ RunWhy(c, o) ==
      ELSE IF ~o.figsOK THEN "T6: a file written is not named outfile.<something>, or two are alike"
      ELSE IF ToSet(o.rows) # x.rows THEN "T6: flux plots of the individual spectra"
      ELSE ""
-RunAux(c) ==
-  LET x == RunExpect(c)
-      calls(name) == {k \in DOMAIN x.flow : x.flow[k].name = name}
+RunAux(x) ==
+  LET calls(name) == {k \in DOMAIN x.flow : x.flow[k].name = name}
       arg(name) == x.flow[CHOOSE k \in calls(name) : TRUE].a
   IN [ ivar |-> IF calls("preprocess_spectra") # {} THEN arg("preprocess_spectra").ivar ELSE <<>>,
        zfit |-> IF calls("preprocess_spectra") # {} THEN arg("preprocess_spectra").zfit ELSE <<>>,
        wv |-> IF calls("wavevector") # {} THEN <<arg("wavevector")>> ELSE <<>>,
        eps |-> IF calls("HMF") # {} THEN <<arg("HMF").epsilon>> ELSE <<>>,
-       fits |-> IF x.tail = "full" THEN << [EPSILON |-> x.fits.EPSILON, zvals |-> x.fits.zvals] >> ELSE <<>> ]
+       fits |-> IF x.tail = "full" THEN << [EPSILON |-> x.fits.EPSILON, zvals |-> x.fits.zvals] >> ELSE <<>>,
+       tail |-> x.tail ]
 
 (* ---------------- template_input_main ---------------- *)
-MainWhy(c, o) ==
-  LET x == MainExpect(c.args)
-  IN IF x.st = "open" THEN ""
+MainWhy(c, o, x) ==
+     IF x.st = "open" THEN ""
      ELSE IF x.st = "ok"
      THEN (IF o.status # "return" \/ o.code # 0 THEN "T7: must call template_input and return 0"
            ELSE IF o.ncalls # 1 THEN "T7: template_input must be called exactly once"
@@ -109,8 +106,9 @@ MainWhy(c, o) ==
      ELSE IF x.st = "reject" THEN (IF o.status = "exit" /\ o.code # 0 THEN "" ELSE "T7: a wrong command line must end with a non-zero status")
      ELSE IF o.status = "exit" /\ o.code = 0 /\ o.usage THEN "" ELSE "T7: -h prints the usage and ends with status 0"
 
-Why(r) == CASE r.c.fam = "meta" -> MetaWhy(r.c, r.obs) [] r.c.fam = "run" -> RunWhy(r.c, r.obs) [] OTHER -> MainWhy(r.c, r.obs)
-Aux(r) == CASE r.c.fam = "meta" -> MetaAux(r.c) [] r.c.fam = "run" -> RunAux(r.c) [] OTHER -> NoAux
+ExpectOf(c) == CASE c.fam = "meta" -> MetaExpect(c.file, c.exists, c.env0) [] c.fam = "run" -> RunExpect(c) [] OTHER -> MainExpect(c.args)
+Why(r, x) == CASE r.c.fam = "meta" -> MetaWhy(r.c, r.obs, x) [] r.c.fam = "run" -> RunWhy(r.c, r.obs, x) [] OTHER -> MainWhy(r.c, r.obs, x)
+Aux(r, x) == CASE r.c.fam = "meta" -> MetaAux(x) [] r.c.fam = "run" -> RunAux(x) [] OTHER -> [st |-> x.st]
 
 (* root (i = 0) -> blocks (i = -b) -> the records of block b: all workers share the records *)
 Block == 40
@@ -121,7 +119,8 @@ Next == \/ /\ i = 0
            /\ UNCHANGED <<ok, why, aux>>
         \/ /\ i < 0
            /\ i' \in {k \in 1 .. Len(Recs) : (k - 1) \div Block = (-i) - 1}
-           /\ why' = Why(Recs[i'])
+           /\ LET r == Recs[i']
+                  x == ExpectOf(r.c)
+              IN why' = Why(r, x) /\ aux' = Aux(r, x)
            /\ ok' = (why' = "")
-           /\ aux' = Aux(Recs[i'])
 =============================================================================
